@@ -76,31 +76,44 @@ fn show_result(r: &Result<Cell, Error>) -> String {
     }
 }
 
-/// evaluate every top-level form of `text`; returns the canonical results
+/// instruction budget of one top-level form (a run that exceeds it prints BUDGET and the
+/// session stops: a mutated collector can send a program into an endless loop)
+const BUDGET: usize = 5_000_000;
+/// at most this many collections per session (then the session panics: PANIC line)
+const MAX_COLLECTIONS: u64 = 300_000;
+
+/// evaluate every top-level form of `text` (what Vm::eval_text does: parse_text,
+/// prepare_eval, run — with a budget); returns the canonical results
 fn eval_all(vm: &mut Vm, text: &str, out: &mut String) {
     let mut rest: &str = text;
     loop {
         if rest.trim().is_empty() {
             return;
         }
-        match vm.eval_text(rest) {
-            Ok((cell, remaining)) => {
-                out.push_str(&show_result(&Ok(cell)));
-                out.push(' ');
-                match remaining {
-                    Some(r) => rest = r,
-                    None => return,
-                }
-            }
+        let (cell, remaining) = match marwood::parse::parse_text(rest) {
+            Ok(x) => x,
             Err(e) => {
-                // a failed form: skip it by re-parsing to find where it ends
-                out.push_str(&show_result(&Err(e)));
+                out.push_str(&show_result(&Err(e.into())));
                 out.push(' ');
-                match marwood::parse::parse_text(rest) {
-                    Ok((_, Some(r))) => rest = r,
-                    _ => return,
-                }
+                return;
             }
+        };
+        let r = match vm.prepare_eval(&cell) {
+            Err(e) => Err(e),
+            Ok(()) => match vm.run_count(BUDGET) {
+                Ok(Some(c)) => Ok(c),
+                Ok(None) => {
+                    out.push_str("BUDGET ");
+                    return;
+                }
+                Err(e) => Err(e),
+            },
+        };
+        out.push_str(&show_result(&r));
+        out.push(' ');
+        match remaining {
+            Some(r) => rest = r,
+            None => return,
         }
     }
 }
@@ -635,6 +648,7 @@ struct Obs {
     snap_mod: u64,
     snap_max: usize,
     index: u64,
+    maxlive: usize,
 }
 
 fn install_observer(vm: &mut Vm, obs: Rc<RefCell<Obs>>) {
@@ -643,6 +657,10 @@ fn install_observer(vm: &mut Vm, obs: Rc<RefCell<Obs>>) {
         match ev {
             GcEvent::Before { .. } => {
                 let (live, dangling) = reachable(vm);
+                let nlive = live.iter().filter(|b| **b).count();
+                if nlive > o.maxlive {
+                    o.maxlive = nlive;
+                }
                 o.before = Some(Before {
                     live,
                     cells: vm.verif_heap_cells().to_vec(),
@@ -651,6 +669,9 @@ fn install_observer(vm: &mut Vm, obs: Rc<RefCell<Obs>>) {
                 });
                 let i = o.index;
                 o.index += 1;
+                if i > MAX_COLLECTIONS {
+                    panic!("collection budget exceeded");
+                }
                 if o.snap_mod > 0 && i % o.snap_mod == o.snap_mod - 1 && o.snaps.len() < o.snap_max {
                     o.pending = Some(snapshot(vm));
                 }
@@ -700,6 +721,7 @@ fn session_case(c: &[String]) -> String {
         snap_mod,
         snap_max: snap_max as usize,
         index: 0,
+        maxlive: 0,
     }));
     install_observer(&mut vm, obs.clone());
     match mode {
@@ -748,6 +770,7 @@ fn stats_case(c: &[String]) -> String {
         snap_mod: 0,
         snap_max: 0,
         index: 0,
+        maxlive: 0,
     }));
     install_observer(&mut vm, obs.clone());
     let mut out = format!("H {}:{}:0", vm.verif_heap_capacity(), vm.verif_heap_used());
@@ -769,14 +792,16 @@ fn stats_case(c: &[String]) -> String {
     }
     let o = obs.borrow();
     format!(
-        "{} | {}## checked={} indep={}",
+        "{} | {}## checked={} indep={} maxlive={} maxalloc={}",
         out,
         res,
         o.checked,
         match &o.problem {
             None => "ok".to_string(),
             Some(p) => format!("FAIL:{}", esc(p).replace(' ', "_")),
-        }
+        },
+        o.maxlive,
+        vm.verif_max_alloc_per_tick()
     )
 }
 
